@@ -5,6 +5,7 @@ import (
 	"errors"
 	"fmt"
 	"net/http"
+	"strings"
 	"sync"
 
 	"github.com/zitadel/saml/pkg/provider"
@@ -67,6 +68,11 @@ type Store struct {
 	// Fallback, when set, is returned for entity ids that are not registered (used by the
 	// crash check to exercise a service provider built from arbitrary metadata).
 	Fallback *serviceprovider.ServiceProvider
+	Lenient  bool
+}
+
+func lenientKey(id string) string {
+	return strings.TrimSuffix(strings.ToLower(strings.TrimSpace(id)), "/")
 }
 
 func newStore() *Store {
@@ -246,6 +252,13 @@ func (s *Store) GetEntityByID(_ context.Context, entityID string) (*serviceprovi
 		return nil, ErrInjected
 	}
 	sp, ok := s.sps[entityID]
+	if !ok && s.Lenient {
+		for id, cand := range s.sps {
+			if lenientKey(id) == lenientKey(entityID) {
+				sp, ok = cand, true
+			}
+		}
+	}
 	if !ok && s.Fallback != nil {
 		return s.Fallback, nil
 	}
@@ -498,6 +511,7 @@ func Build(spec Spec) (*World, error) {
 		st.order = append(st.order, r.ID)
 	}
 	st.faults = append([]Fault(nil), spec.Faults...)
+	st.Lenient = spec.LenientLookup
 	conf, issuer, opts := ProviderConfig(spec.IdP)
 	p, err := provider.NewProvider(st, issuer, conf, opts...)
 	if err != nil {
